@@ -48,9 +48,12 @@ namespace ip {
 		std::vector<asio::ip::address> result;
 		boost::system::error_code ec;
 
+		// lookups are served one at a time: a new one starts when the last
+		// queued one is done (literals are inserted at the front, so the back of
+		// the queue is the most recently requested host name)
 		const chrono::high_resolution_clock::time_point start_time =
 			m_queue.empty() ? chrono::high_resolution_clock::now() :
-			m_queue.front().completion_time;
+			(std::max)(chrono::high_resolution_clock::now(), m_queue.back().completion_time);
 
 		assert(!m_ios->get_ips().empty() && "internal io service objects can only "
 			"be used for timers");
